@@ -92,32 +92,54 @@ func runC15(c *Ctx) {
 
 	// ---- separator ---------------------------------------------------------------
 	sepSites := 0
-	checkSep := func(mod *Module, pkg, fn string, callees ...string) {
+	// roles of a separator site and the calls that can play them (the separator is argument 1;
+	// IsStackCounter is the shared newline test itself)
+	families := map[string][]string{
+		"test":  {"strings.Contains", "strings.ContainsRune", "strings.Index", "strings.IndexByte", "strings.IndexRune", "strings.Count", "internal/counter.IsStackCounter"},
+		"split": {"strings.Cut", "strings.Split", "strings.SplitN", "strings.SplitAfter", "strings.SplitAfterN", "strings.Index", "strings.IndexByte", "strings.IndexRune"},
+		"join":  {"strings.Join"},
+	}
+	isNewline := func(v ssa.Value) (bool, string) {
+		if k, isC := constOf(v); isC {
+			if n, isInt := intConst(v); isInt {
+				return n == 10, fmt.Sprintf("%q", rune(n))
+			}
+			return k == "\n", fmt.Sprintf("%q", k)
+		}
+		return false, describe(v)
+	}
+	checkSep := func(mod *Module, pkg, fn string, roles ...string) {
 		f := mod.FuncOpt(pkg, fn)
 		if f == nil {
 			r.Check("C15.separator-agreement", pkg+"."+fn, "-", false, "function not found")
 			return
 		}
-		n := 0
-		for _, cs := range callsInAll(f, callees...) {
-			a := cs.Common().Args
-			k, isC := constOf(a[len(a)-1])
-			if calleeName(cs.Common()) == "strings.Join" || calleeName(cs.Common()) == "strings.Split" || calleeName(cs.Common()) == "strings.Cut" || calleeName(cs.Common()) == "strings.Contains" {
-				k, isC = constOf(a[1])
+		seenCall := map[ssa.CallInstruction]bool{}
+		for _, role := range roles {
+			n := 0
+			for _, cs := range callsInAll(f, families[role]...) {
+				n++
+				if seenCall[cs] {
+					continue
+				}
+				seenCall[cs] = true
+				sepSites++
+				if calleeName(cs.Common()) == "internal/counter.IsStackCounter" {
+					continue // the shared test; its own separator is checked at IsStackCounter
+				}
+				ok, got := isNewline(cs.Common().Args[1])
+				r.Check("C15.separator-agreement", short(f.Name())+"/"+calleeName(cs.Common()), mod.Pos(cs.Pos()), ok, "separator must be the newline; got "+got)
 			}
-			n++
-			sepSites++
-			r.Check("C15.separator-agreement", short(f.Name())+"/"+calleeName(cs.Common()), mod.Pos(cs.Pos()), isC && k == "\n", fmt.Sprintf("separator must be the newline; got %q", k))
+			r.Check("C15.separator-agreement", short(f.Name())+"/uses the separator ("+role+")", mod.Pos(f.Pos()), n >= 1, "expected a newline "+role+" here")
 		}
-		r.Check("C15.separator-agreement", short(f.Name())+"/uses the separator", mod.Pos(f.Pos()), n >= 1, "expected a newline test/split here")
 	}
-	checkSep(m, "internal/counter", "IsStackCounter", "strings.Contains")
-	checkSep(m, "internal/counter", "DecodeStack", "strings.Contains", "strings.Split", "strings.Join")
-	checkSep(m, "internal/counter", "EncodeStack", "strings.Join")
-	checkSep(m, "internal/upload", "uploader.createReport", "strings.Cut")
-	checkSep(m, "cmd/gotelemetry/internal/view", "summary", "strings.Cut")
-	checkSep(m, "cmd/gotelemetry/internal/view", "newCounterFile", "strings.Cut")
-	checkSep(c.Godev(), "cmd/telemetrygodev", "validate", "strings.Cut")
+	checkSep(m, "internal/counter", "IsStackCounter", "test")
+	checkSep(m, "internal/counter", "DecodeStack", "test", "split", "join")
+	checkSep(m, "internal/counter", "EncodeStack", "join")
+	checkSep(m, "internal/upload", "uploader.createReport", "split")
+	checkSep(m, "cmd/gotelemetry/internal/view", "summary", "split")
+	checkSep(m, "cmd/gotelemetry/internal/view", "newCounterFile", "split")
+	checkSep(c.Godev(), "cmd/telemetrygodev", "validate", "split")
 	// EncodeStack: prefix + "\n" + joined
 	okPrefix := false
 	for _, in := range instrsOf(enc) {
@@ -143,6 +165,8 @@ func runC15(c *Ctx) {
 			okId = hasFact(factsAt(ret), callResultIs("strings.Contains", false, func(a []ssa.Value, _ *ssa.Call) bool {
 				k, isC := constOf(a[1])
 				return a[0] == ssa.Value(dec.Params[0]) && isC && k == "\n"
+			})) || hasFact(factsAt(ret), callResultIs("internal/counter.IsStackCounter", false, func(a []ssa.Value, _ *ssa.Call) bool {
+				return a[0] == ssa.Value(dec.Params[0]) // the shared newline test (its separator: C15.separator-agreement)
 			}))
 		}
 	}
@@ -251,6 +275,9 @@ func runC15(c *Ctx) {
 				if cond, val, ok := l.exitsOn(blk); ok {
 					if bo, isB := cond.(*ssa.BinOp); isB && bo.Op == token.NEQ && val {
 						dx, dy := describe(bo.X), describe(bo.Y)
+						if strings.HasPrefix(dx, "param:b[") {
+							dx, dy = dy, dx // != is symmetric
+						}
 						if strings.HasPrefix(dx, "param:a[") && strings.HasPrefix(dy, "param:b[") && dx[len("param:a"):] == dy[len("param:b"):] {
 							if rb := returnBlock(blk.Succs[0]); rb != nil {
 								if k, _ := constOf(rb.Results[0]); k == "false" {
